@@ -3328,6 +3328,52 @@ func c14r19(c *Ctx, r *Report) {
 	r.floor("calls of syscall.Exec in Executor.Become", n, 1)
 }
 
+// c09r16: the kill buffer (Terminal.yanked) must own its storage. The editing actions delete and insert IN
+// PLACE (append(t.input[:i], t.input[j:]...)), and with the input hidden doAction puts the array it saw at the
+// start back as the query — so a kill buffer that merely points at the query's array is rewritten by later edits
+// (D73: `cancel` did `t.yanked = t.input`; every other kill stores copySlice(..)).
+func c09r16(c *Ctx, r *Report) {
+	l := c.L
+	r.rule("C09-R16", "F (the kill buffer is a private copy)", "P1",
+		"in Terminal.Loop and its closures, every value stored into Terminal.yanked is the result of a call that returns a new slice (copySlice, append onto a fresh slice) — never a load of Terminal.input or a re-slice of it",
+		"yank inserts text that later edits of the query have rewritten: the query is not what the documented effect of the actions gives")
+	loop := l.Fn("fzf", "(*Terminal).Loop")
+	fY := l.Field("fzf", "Terminal", "yanked")
+	fIn := l.Field("fzf", "Terminal", "input")
+	cp := l.Fn("fzf", "copySlice")
+	if loop == nil || fY == nil || fIn == nil || cp == nil {
+		r.unest("anchors", token.NoPos, nil, "anchors Terminal.Loop / yanked / input / copySlice", "cannot resolve")
+		return
+	}
+	n := 0
+	for _, fn := range withClosures(loop) {
+		eachInstr(fn, func(in ssa.Instruction) {
+			st, ok := in.(*ssa.Store)
+			if !ok {
+				return
+			}
+			if fld, _ := fieldOf(st.Addr); fld != fY {
+				return
+			}
+			n++
+			// does the stored value share storage with Terminal.input: reachable through re-slices, phis, conversions
+			// without passing a copying call
+			alias := false
+			for w := range backwardSlice(st.Val, nil, func(x ssa.Value) bool {
+				call, ok := x.(*ssa.Call)
+				return ok && call.Common().StaticCallee() == cp
+			}) {
+				if fld, _ := loadedField(w); fld == fIn {
+					alias = true
+				}
+			}
+			r.check(!alias, fmt.Sprintf("%s:store #%d into the kill buffer is a copy", relName(rootFn(fn)), n), st.Pos(), fn,
+				"the kill buffer gets its own storage", "the kill buffer is set to (a slice of) the query's own array: in-place edits of the query rewrite it")
+		})
+	}
+	r.floor("stores into Terminal.yanked", n, 4)
+}
+
 // round8 runs the round-8 rules of a property (own and shared) after the property's older rules.
 func round8(c *Ctx, r *Report, prop string) {
 	switch prop {
@@ -3365,6 +3411,7 @@ func round8(c *Ctx, r *Report, prop string) {
 		c08r21(c, r)
 		c01r10(c, r) // every edit of the query starts a search
 	case "C09":
+		c09r16(c, r)
 		c09r15(c, r)
 	case "C11":
 		c11r20(c, r)
